@@ -63,7 +63,7 @@ def run(ctx):
     if quick:
         mc_tags = ["c07-deep"]
         jobs = [lambda: fam.mc(ctx, "c07-deep", "deep", 3, 3, modes=("d", "f"), workers=2),
-                lambda: fam.gen(ctx, "wide", 2), lambda: fam.gen(ctx, "deep", 4), lambda: fam.gen(ctx, "rand", 6, samples=150, shards=1)]
+                lambda: fam.gen(ctx, "wide", 2), lambda: fam.gen(ctx, "deep", 4), lambda: fam.gen(ctx, "rand", 7, samples=800, shards=2)]
     else:
         mc_tags = ["MC_Inject", "MC_Inject_deep"]
         jobs = [lambda: fam.mc_static(ctx, "MC_Inject", workers=4, coverage=True), lambda: fam.mc_static(ctx, "MC_Inject_deep", workers=4, coverage=True),
